@@ -1,11 +1,11 @@
 #!/bin/bash
-# usage: collect_mutant2.sh <id> : round-2 mutants. From the sub-agent's scratch worktree /tmp/wt2-<id> (change applied, demo test present,
-# /tmp/mutprompt/<id>.result.json written) confirm the demo both ways, run the touched packages' tests, and store everything under seeded/<id>b/.
-ID=$1; W=/tmp/wt2-$ID; OUT=/verif/seeded/${ID}b
+# usage: collect_mutant2.sh <id> : round-2 mutants. From the sub-agent's scratch worktree /tmp/wt${ROUND:-2}-<id> (change applied, demo test present,
+# /tmp/mutprompt${PSUF:-}/<id>.result.json written) confirm the demo both ways, run the touched packages' tests, and store everything under seeded/<id>b/.
+ID=$1; W=/tmp/wt${ROUND:-2}-$ID; OUT=/verif/seeded/${ID}${SUF:-b}
 export GOFLAGS=-mod=mod GOPROXY=off GOSUMDB=off GOTOOLCHAIN=local
 cd $W || exit 2
 mkdir -p $OUT
-R=/tmp/mutprompt/$ID.result.json
+R=/tmp/mutprompt${PSUF:-}/$ID.result.json
 DEMO=$(python3 -c "import json;print(json.load(open('$R'))['demo_file'])")
 git diff > $OUT/patch.diff
 cp "$DEMO" $OUT/demo_test.go
@@ -32,7 +32,7 @@ r['demo_run']="copy demo_test.go to <repo>/$DEMO; $RUN"
 r['confirmed_by_me']={'demo_fails_with_patch': $A!=0,'demo_passes_without_patch': $B==0,'go_build_with_patch': $C==0,'touched_package_tests_pass_with_patch': $D==0,
  'how':'scripts/collect_mutant2.sh in the scratch worktree: demo with the patch, demo with the patch reversed, go build ./..., existing tests of the touched packages'}
 r['base_commit']='$(git rev-parse --short HEAD)'
-r['round']=2
+r['round']=int('${ROUND:-2}')
 json.dump(r,open('$OUT/meta.json','w'),indent=1)
 PY
 tail -3 $OUT/pkg_tests.log
